@@ -5,8 +5,10 @@
    coordinates are rationals (every binary64 is one). *)
 From Coq Require Import List Arith Bool ZArith QArith.
 Import ListNotations.
+Require Import Base.C11_Unique Model.C11_Topo Proofs.C11_TopoProofs.
 Require Import Model.C12_Refine Model.C12_Geom Model.C13_Adaptive.
 Require Import Proofs.C12_RefineProofs Proofs.C12_GeomProofs Proofs.C12_BoundaryProofs Proofs.C13_AdaptiveProofs.
+Require Import Model.C12_Global Proofs.C12_GlobalProofs.
 Require Import Gen.C12Gen Dyn.C12Tie.
 Local Open Scope nat_scope.
 
@@ -323,6 +325,61 @@ Theorem C12_no_hanging_nodes_2d :
     forall e, In e (resolved_pieces rf F nv c a) <-> In e (facet_trace F nv facets f).
 Proof. split; [exact tri_trace_ok | split; [exact quad_trace_ok | exact traces_agree]]. Qed.
 Print Assumptions C12_no_hanging_nodes_2d.
+
+(* ---------------------------------------------------------------------------------------------
+   GLOBAL conformity (2-D), with the facet tables of Mesh.build_entities (C11: facets keyed by sorted vertex tuples,
+   t2f numbers them slot by slot): in EVERY cell k that contains the old facet f = {e0, e1} (as its local facet a) the
+   children leave on f exactly the two halves {e0, c} and {c, e1}, c = nv + f — the same two facets of the refined
+   mesh from every side.  All meshes whose cells have pairwise distinct vertices; this applies to every intermediate
+   mesh of refined(k).  Together with C12_no_hanging_nodes_2d (all other child facets are interior to their parent and
+   shared by two of its children) no facet of the refined mesh ends at a hanging node. *)
+Theorem C12_global_no_hanging_nodes_tri : forall cells nv k a,
+  Forall (fun c => NoDup c /\ length c = 3) cells -> k < length cells -> a < length gen_tri_rfacets ->
+  let tb := c11_tables cells gen_tri_rfacets in
+  let f := nth a (cf (cell_ctx tb k)) 0 in
+  let e0 := nth 0 (nth f (tb_facets tb) []) 0 in let e1 := nth 1 (nth f (tb_facets tb) []) 0 in
+  forall e, In e (resolved_pieces gen_tri_rfacets (all_marked cells gen_tri_rfacets) nv (cell_ctx tb k) a)
+            <-> e = sort2 e0 (nv + f) \/ e = sort2 (nv + f) e1.
+Proof. intros cells nv k a Hc. exact (uniform_halves_everywhere cells gen_tri_rfacets 3 nv k a tri_rf2_ok Hc). Qed.
+Print Assumptions C12_global_no_hanging_nodes_tri.
+
+Theorem C12_global_no_hanging_nodes_quad : forall cells nv k a,
+  Forall (fun c => NoDup c /\ length c = 4) cells -> k < length cells -> a < length gen_quad_rfacets ->
+  let tb := c11_tables cells gen_quad_rfacets in
+  let f := nth a (cf (cell_ctx tb k)) 0 in
+  let e0 := nth 0 (nth f (tb_facets tb) []) 0 in let e1 := nth 1 (nth f (tb_facets tb) []) 0 in
+  forall e, In e (resolved_pieces gen_quad_rfacets (all_marked cells gen_quad_rfacets) nv (cell_ctx tb k) a)
+            <-> e = sort2 e0 (nv + f) \/ e = sort2 (nv + f) e1.
+Proof. intros cells nv k a Hc. exact (uniform_halves_everywhere cells gen_quad_rfacets 4 nv k a quad_rf2_ok Hc). Qed.
+Print Assumptions C12_global_no_hanging_nodes_quad.
+
+(* two cells share an old facet (same facet number <=> same two end points, C11) => they share both halves *)
+Theorem C12_shared_facet_shares_halves : forall cells F nv k1 a1 k2 a2,
+  Forall (fun c => NoDup c /\ length c = 3) cells ->
+  k1 < length cells -> a1 < length gen_tri_rfacets -> k2 < length cells -> a2 < length gen_tri_rfacets ->
+  let tb := c11_tables cells gen_tri_rfacets in
+  (nth a1 (cf (cell_ctx tb k1)) 0 = nth a2 (cf (cell_ctx tb k2)) 0 <->
+   sort_entity (slotv (nth a1 gen_tri_rfacets []) (nth k1 cells [])) = sort_entity (slotv (nth a2 gen_tri_rfacets []) (nth k2 cells []))) /\
+  (nth a1 (cf (cell_ctx tb k1)) 0 = nth a2 (cf (cell_ctx tb k2)) 0 ->
+   forall e, In e (resolved_pieces gen_tri_rfacets F nv (cell_ctx tb k1) a1)
+             <-> In e (resolved_pieces gen_tri_rfacets F nv (cell_ctx tb k2) a2)).
+Proof.
+  intros cells F nv k1 a1 k2 a2 Hc H1 H2 H3 H4. split.
+  - exact (same_endpoints_same_facet cells gen_tri_rfacets k1 a1 k2 a2 H1 H2 H3 H4).
+  - exact (shared_facet_same_pieces cells gen_tri_rfacets 3 tri_rf2_ok Hc F nv k1 a1 k2 a2 H1 H2 H3 H4).
+Qed.
+Print Assumptions C12_shared_facet_shares_halves.
+
+(* second-order classes: MeshTri2 / MeshQuad2 / MeshHex2 refine through from_mesh (tags dropped) and Mesh.refined re-creates the
+   subdomains with the generic fallback, MeshTet2 (after N1) refines as MeshTet1 carrying the subdomains: in every case the
+   index map in force is the position of the children of the linear class (C12_*_children above) *)
+Theorem C12_second_order_subdomain_children :
+  (forall nt j k, gen_tri2_submap nt j k = fallback_index nt j k) /\
+  (forall nt j k, gen_quad2_submap nt j k = fallback_index nt j k) /\
+  (forall nt j k, gen_hex2_submap nt j k = fallback_index nt j k) /\
+  (forall cls j k, nth k cls 0 < 3 -> gen_tet2_submap cls j k = tet_child_index cls j k).
+Proof. repeat split; try reflexivity. exact tet_submap_ok. Qed.
+Print Assumptions C12_second_order_subdomain_children.
 
 (* non-vacuity: the unit square of two triangles, refined by the model *)
 Example C12_instance :
